@@ -51,3 +51,117 @@ pub fn c15_null_step() {
     kani::cover!(true);
     std::mem::forget(g);
 }
+
+// ---- unbounded material, no recomputation loops: the accumulators change by exactly the contributions of what changed ----
+use crate::chess::square::Square;
+use crate::engine::eval::{verif_access as ea, PhasedEval};
+
+/// contributions (phase, packed piece-square value) of the (at most two) men of colour c, kind k on `bits`
+fn contrib_bits(c: usize, k: usize, bits: u64) -> (i16, PhasedEval) {
+    let mut ph = 0i16;
+    let mut v = PhasedEval::ZERO;
+    if bits != 0 {
+        let lo = bits.trailing_zeros() as u8;
+        let pc = crate::chess::piece::Piece::new(pos::player_of(c), pos::kind_of(k));
+        ph += ea::piece_phase_value_contribution(pc.kind);
+        v += piece_square_tables::piece_contributions(Square::from_index(lo), pc);
+        let rest = bits & (bits - 1);
+        if rest != 0 {
+            let hi = rest.trailing_zeros() as u8;
+            ph += ea::piece_phase_value_contribution(pc.kind);
+            v += piece_square_tables::piece_contributions(Square::from_index(hi), pc);
+        }
+    }
+    (ph, v)
+}
+
+/// any valid position, ANY starting accumulators: make_move changes them by exactly (+ men that appeared, - men that disappeared)
+pub fn delta_make(kind: usize, side: u8) {
+    load();
+    let (pre, mut g, w, m) = step::any_case(kind, side);
+    let ph0: i16 = kani::any();
+    let (mg0, eg0): (i16, i16) = (kani::any(), kani::any());
+    kani::assume(ph0 >= 0 && ph0 <= 200 && mg0 > -16000 && mg0 < 16000 && eg0 > -16000 && eg0 < 16000);
+    g.incremental_eval = IncrementalEvalFields { phase_value: ph0, piece_square_tables: PhasedEval::new(mg0, eg0) };
+    #[cfg(test)] show(&pre, w);
+    let e0 = g.incremental_eval.clone();
+    g.make_move(move_of(w));
+    let after = m.after;
+    let mut ph = ph0;
+    let mut v = PhasedEval::new(mg0, eg0);
+    let mut c = 0;
+    while c < 2 {
+        let mut k = 0;
+        while k < 6 {
+            let gone = pre.p.pcs[c][k] & !after[c][k];
+            let came = after[c][k] & !pre.p.pcs[c][k];
+            // a chess move changes at most two squares per colour and kind
+            assert!(gone.count_ones() <= 2 && came.count_ones() <= 2);
+            let (p1, v1) = contrib_bits(c, k, came);
+            let (p2, v2) = contrib_bits(c, k, gone);
+            ph = ph + p1 - p2;
+            v = v + v1 - v2;
+            k += 1;
+        }
+        c += 1;
+    }
+    assert!(g.incremental_eval.phase_value == ph);
+    assert!(g.incremental_eval.piece_square_tables == v);
+    kani::cover!(m.capture || m.castle || pos::raw_promo(w) != 0);
+    g.undo_move();
+    assert!(same(&g.incremental_eval, &e0));
+    std::mem::forget(g);
+}
+
+/// the real recomputation is the sum of the contributions of all men (concrete table indices; any reachable material)
+#[kani::proof]
+#[kani::unwind(66)]
+pub fn c15_init_is_sum() {
+    load();
+    let p = pos::any_valid();
+    kani::assume(pos::legal_material(&p));
+    #[cfg(test)] println!("REPLAY-CASE {{\"fen\":\"{}\"}}", pos::fen_of(&p));
+    let g = pos::game_of(&p);
+    let got = IncrementalEvalFields::init(&g.board);
+    let mut ph = 0i16;
+    let mut v = PhasedEval::ZERO;
+    let mut c = 0;
+    while c < 2 {
+        let mut k = 0;
+        while k < 6 {
+            let mut sq = 0u8;
+            while sq < 64 {
+                if p.pcs[c][k] & (1u64 << sq) != 0 {
+                    let pc = crate::chess::piece::Piece::new(pos::player_of(c), pos::kind_of(k));
+                    ph += ea::piece_phase_value_contribution(pc.kind);
+                    v += piece_square_tables::piece_contributions(Square::from_index(sq), pc);
+                }
+                sq += 1;
+            }
+            k += 1;
+        }
+        c += 1;
+    }
+    assert!(got.phase_value == ph && got.piece_square_tables == v);
+    kani::cover!(ph > 24);
+    std::mem::forget(g);
+}
+
+/// a null move leaves the accumulators alone; its take-back restores them
+#[kani::proof]
+pub fn c15_delta_null() {
+    load();
+    let (pre, mut g) = step::any_pre();
+    let ph0: i16 = kani::any();
+    let (mg0, eg0): (i16, i16) = (kani::any(), kani::any());
+    kani::assume(mg0 > -16000 && mg0 < 16000 && eg0 > -16000 && eg0 < 16000);
+    g.incremental_eval = IncrementalEvalFields { phase_value: ph0, piece_square_tables: PhasedEval::new(mg0, eg0) };
+    #[cfg(test)] show(&pre, 0);
+    let e0 = g.incremental_eval.clone();
+    g.make_null_move();
+    assert!(same(&g.incremental_eval, &e0));
+    g.undo_null_move();
+    assert!(same(&g.incremental_eval, &e0));
+    kani::cover!(true);
+    std::mem::forget(g);
+}
